@@ -536,6 +536,26 @@ func scenarios() []*sched.Scenario {
 		vrt.Par(func() { _, _ = tv.Compute(inc) }, func() { _, _ = tv.Compute(inc) }, func() { _, _ = tv.Has() })
 		finalAgree(tv, st, 7)
 	}})
+	// the same races once the value is already cached (a fast path that trusts the cache must still be atomic)
+	out = append(out, &sched.Scenario{Name: "cached/compute-compute", Run: func() {
+		tv, st := mk(true)
+		_, _ = tv.Get()
+		vrt.Par(func() { _, _ = tv.Compute(inc) }, func() { _, _ = tv.Compute(inc) })
+		finalAgree(tv, st, 7)
+	}})
+	out = append(out, &sched.Scenario{Name: "cached/compute-set", Run: func() {
+		tv, st := mk(true)
+		_, _ = tv.Get()
+		vrt.Par(func() { _, _ = tv.Compute(inc) }, func() { _ = tv.Set(9) })
+		finalAgree(tv, st, 9, 10)
+	}})
+	out = append(out, &sched.Scenario{Name: "cached/compute-delete-has", Run: func() {
+		tv, st := mk(true)
+		_, _ = tv.Has()
+		_, _ = tv.Get()
+		vrt.Par(func() { _, _ = tv.Compute(inc) }, func() { _ = tv.Delete() }, func() { _, _ = tv.Has() })
+		finalAgree(tv, st, -1, 1)
+	}})
 	out = append(out, &sched.Scenario{Name: "compute-set-get", Run: func() {
 		tv, st := mk(false)
 		vrt.Par(
